@@ -82,6 +82,7 @@ type Session struct {
 	RawOut      []byte // snapshot frame not yet delivered to this replica
 	NReq        int    // requests executed on this connection
 	ParseBroken bool
+	Local       bool
 }
 
 // Server is one Redis node double.
@@ -128,6 +129,16 @@ func NewServer(addr string) *Server {
 	}
 	s.RunID = strings.Repeat("a", 40)
 	return s
+}
+
+// LocalSession returns a session for a simulated client that talks to the double by direct calls
+// (Dispatch), without a simulated connection of the tool. Its replies are discarded.
+func (s *Server) LocalSession(name string) *Session {
+	c := simnet.NewLocalConn(-(len(s.Sessions) + 1))
+	sess := &Session{Conn: c, Name: name, Local: true}
+	c.Owner = sess
+	s.Sessions = append(s.Sessions, sess)
+	return sess
 }
 
 func (s *Server) Accept(c *simnet.SimConn) {
@@ -217,6 +228,12 @@ func (s *Server) Step(ss *Session) bool {
 		return false
 	}
 	ss.Conn.Consume(n)
+	s.Dispatch(ss, args)
+	return true
+}
+
+// Dispatch executes one already-parsed request on a session (also used for simulated local clients).
+func (s *Server) Dispatch(ss *Session, args [][]byte) bool {
 	if len(args) == 0 {
 		return true
 	}
@@ -357,7 +374,7 @@ func (s *Server) execute(ss *Session, name string, args [][]byte, txn int) resp.
 	s.logExec(ss, name, args, txn, v)
 	ss.DB = cur
 	if !v.IsErr() {
-		s.propagate(ss, dbBefore, name, args)
+		s.propagate(ss, dbBefore, name, args, v)
 	}
 	return v
 }
